@@ -67,6 +67,8 @@ def gen_sv(rnd, idx):
         cons = []
         if mode < 0.3:
             args += ["start:%s" % f2(a["start"]), "end:%s" % f2(a["end"])]
+            if rnd.random() < 0.4:      # every temporal argument a constant: the atom has no variable that could change later
+                args += ["duration:%s" % f2(a["end"] - a["start"])]
         elif mode < 0.5:
             args += ["start:%s" % f2(a["start"])]
             cons.append("%s.end <= %s;" % (name, f2(a["end"] + rnd.choice([0, 0, 1]))))
@@ -156,6 +158,8 @@ def gen_rr(rnd, idx):
         args = ["amount:%s" % f2(a["amount"])]
         if mode < 0.35:
             args += ["start:%s" % f2(a["start"]), "end:%s" % f2(a["end"])]
+            if rnd.random() < 0.4:
+                args += ["duration:%s" % f2(a["end"] - a["start"])]
         elif mode < 0.6:
             args += ["duration:%s" % f2(a["end"] - a["start"])]
             cons.append("%s.start >= %s;" % (name, f2(max(Z, a["start"] - rnd.choice([0, 1, 2])))))
@@ -346,6 +350,8 @@ def gen_sx(rnd, idx):
         if mode < 0.25:
             a["start_eq"], a["end_eq"] = lo, lo + dur
             args += ["start:%s" % f2(lo), "end:%s" % f2(lo + dur)]
+            if rnd.random() < 0.5:
+                args += ["duration:%s" % f2(dur)]
         elif mode < 0.45:
             a["dur_eq"] = dur
             a["lo"], a["hi"] = lo, hi
